@@ -266,13 +266,16 @@ def steps_case(ctx, idx, rng):
     import pytenet.operation as po
     d = int(rng.integers(1, 4))
     Da, Da2, Db, Db2, Dw, Dw2 = (int(x) for x in rng.integers(1, 5, size=6))
+    if idx % 3 == 2:
+        # strongly unequal dimensions (a bond much larger than d^2 times its partner): contraction-order heuristics
+        Da, Da2, Db, Db2, Dw, Dw2 = (int(x) for x in rng.choice([1, 1, 2, 3, 5, 9, 14, 21], size=6))
     c = lambda *s: gen.entries(rng, s, 'complex')
     A = c(d, Da2, Da); B = c(d, Db2, Db); W = c(d, d, Dw2, Dw)
     structured = bool(idx % 2) and d >= 2
     if structured:
         # operator tensor made of structured blocks (zero blocks, c*I + g*X, projectors, shifts, ...) instead of dense random entries
         W = gen.structured_operator_tensor(rng, d, Dw2, Dw, cplx=bool(idx % 4 == 1))
-    ctx.case(('steps', f'd{d}', 'structured-operator-blocks' if structured else 'dense-operator'), sample={'A': A.shape, 'B': B.shape, 'W': W.shape})
+    ctx.case(('steps', f'd{d}', 'structured-operator-blocks' if structured else 'dense-operator', 'unequal-dims' if idx % 3 == 2 else 'small-dims'), sample={'A': A.shape, 'B': B.shape, 'W': W.shape})
     R = c(Da, Db)
     detail = {'A': A, 'B': B, 'W': W}
     with monitor.write_protected(A, B, W, R):
